@@ -572,3 +572,21 @@ fn socks_to_io_error(err: socks5_client::Error) -> io::Error {
         }
     }
 }
+
+/// Verification door
+#[cfg(feature = "verif")]
+pub(crate) fn verif_make_auth(
+    auth: authentication::Source<'static>,
+    extended: bool,
+    tls_domain: &str,
+    client_address: &IpAddr,
+    user_agent: Option<&str>,
+) -> Result<socks5_client::Authentication<'static>, String> {
+    if extended {
+        make_extended_auth(auth, tls_domain, client_address, user_agent)
+            .map(socks5_client::Authentication::into_owned)
+    } else {
+        make_auth(auth)
+    }
+}
+
